@@ -7,6 +7,7 @@ import (
 	"runtime/debug"
 	"strings"
 	"sync"
+	"syscall"
 
 	"github.com/honeytrap/honeytrap/event"
 	"github.com/honeytrap/honeytrap/listener/canary"
@@ -69,6 +70,24 @@ func newCanaryLab(cfg canaryCfg) *canaryLab {
 	}
 	l.c, l.peerFd = c, fd
 	return l
+}
+
+// newCanaryLabK is newCanaryLab with the port-scan detector running, as it
+// always is behind Start(): the packet handlers block on the knock channel
+// once it holds 100 unconsumed knocks.
+func newCanaryLabK(cfg canaryCfg) *canaryLab {
+	l := newCanaryLab(cfg)
+	l.startKnock()
+	return l
+}
+
+// close stops the detector (if started) and releases the descriptors.
+func (l *canaryLab) close() {
+	if l.cancel != nil {
+		l.cancel()
+	}
+	l.c.VerifClose()
+	syscall.Close(l.peerFd)
 }
 
 func (l *canaryLab) startKnock() {
